@@ -1,7 +1,7 @@
 (* C10 -- Any metallicity is accepted and snapped to the nearest tabulated model.
    Statements only; proofs are `exact` of lemmas in Proofs/FeHProofs.v.
    Quantified over EVERY rational [Fe/H] (every float is one), not a grid. *)
-From Coq Require Import ZArith QArith List Bool.
+From Coq Require Import ZArith QArith Qabs List Bool.
 From SSP Require Import Model.FeHLookup Proofs.FeHProofs.
 Import ListNotations.
 Local Open Scope Z_scope.
@@ -9,7 +9,7 @@ Local Open Scope Z_scope.
 (* two-decimal formatting rounds to a nearest hundredth: |h - 100|x|| <= 1/2 *)
 Theorem C10_fmt2_nearest : forall nz x,
   let h := snd (fmt2 nz x) in
-  (0 <= h /\ Qabs (inject_Z h - 100 * Qabs x) <= 1 # 2)%Q.
+  (0 <= inject_Z h /\ Qabs (inject_Z h - 100 * Qabs x) <= 1 # 2)%Q.
 Proof. exact fmt2_nearest. Qed.
 Print Assumptions C10_fmt2_nearest.
 
